@@ -76,6 +76,20 @@ def _fuse(t: T) -> T:
         if it.a[1] == b2:
             m = {b: b2}
             return T("comp", (kind, sym.subst(elt, m), ((b2, s2, tuple(c2) + tuple(sym.subst(c, m) for c in conds)),)))
+        if it.a[1].op == "new" and kind in ("list", "gen"):
+            # [g(y) for y in [Obj(f=F(x)) for x in S if c(x)]]  ->  [g(Obj(f=F(x))) for x in S if c(x)], with field reads of the
+            # freshly built object replaced by the field values (y.f -> F(x))
+            m = {b: it.a[1]}
+            proj = lambda z: rewrite(sym.subst(z, m), _attr_of_new)
+            return T("comp", (kind, proj(elt), ((b2, s2, tuple(c2) + tuple(proj(c) for c in conds)),)))
+    return t
+
+
+def _attr_of_new(t: T) -> T:
+    if t.op == "attr" and t.a[0].op == "new":
+        for k, v in t.a[0].a[1]:
+            if k == t.a[1]:
+                return v
     return t
 
 
@@ -276,6 +290,8 @@ def simplify(t: T, assume: Optional[dict] = None, depth: int = 0) -> T:
             return cond(T("ite", (x.a[0], a_, b_)))
         if nt is not None and nt[0] == NONE:
             return const(nt[1])
+        if nt is not None and nt[0].op == "bin" and nt[0].a[0] in ("+", "-", "*", "//", "%", "<<", ">>", "&", "|", "^"):
+            return const(not nt[1])          # the result of arithmetic is never None
         if nt is not None and nt[0].op in ("new", "list", "tuple", "dict", "comp", "fstr", "const"):
             return const(not nt[1]) if nt[0] != NONE else const(nt[1])
         if c.op == "ite":
